@@ -218,9 +218,12 @@ def make_initializer(spec):
     cf = spec.get("counter_file")
     if cf:
         cf = cf.replace("$CASE", CASEDIR)
+    tok = spec.get("token")
+    if spec.get("unpicklable"):
+        tok = threading.Lock()  # the process object cannot be pickled: every spawn fails
     return {
         "initializer": lv_tasks.init,
-        "initargs": (spec.get("token"), cf, spec.get("fail_on"), spec.get("leak0", False)),
+        "initargs": (tok, cf, spec.get("fail_on"), spec.get("leak0", False)),
     }
 
 
